@@ -14,6 +14,7 @@ type Gate struct {
 	point   string
 	mu      sync.Mutex
 	armed   bool
+	once    bool
 	reached chan *server.GCAServer
 	release chan struct{}
 }
@@ -27,6 +28,9 @@ func (e *Env) NewGate(point string) *Gate {
 			g.mu.Lock()
 			armed := g.armed
 			rel := g.release
+			if armed && g.once {
+				g.armed = false // only the first arrival is held
+			}
 			g.mu.Unlock()
 			if armed {
 				g.reached <- s
@@ -43,6 +47,15 @@ func (e *Env) NewGate(point string) *Gate {
 func (g *Gate) Arm() {
 	g.mu.Lock()
 	g.armed = true
+	g.once = false
+	g.mu.Unlock()
+}
+
+// ArmOnce holds only the first goroutine that arrives.
+func (g *Gate) ArmOnce() {
+	g.mu.Lock()
+	g.armed = true
+	g.once = true
 	g.mu.Unlock()
 }
 
